@@ -223,6 +223,50 @@ def iwls_glue(chk, n, user_chol):
     return obs
 
 
+def iwls_second_use(chk):
+    """a kernel state that has been used before -- returned by init_state at one model state, then by a transition at another -- carries
+    nothing but tuning parameters: the next transition, after the REST of the model state changed (another kernel moved tau), is the one a
+    fresh kernel state with the same step size gives.  Whole transitions, only cholesky is a contract."""
+    import liesel.goose as gs
+    import liesel.goose.iwls as iwls
+    from liesel.goose.epoch import EpochConfig, EpochType
+    n = 2
+    k = iwls.IWLSKernel(["x"], initial_step_size=0.5)
+    k.set_model(gs.DictInterface(lp_pois))
+    ep = EpochConfig(EpochType.POSTERIOR, 10, 1, None).to_state(1, 0)
+
+    def g(key0, key1, key2, x, y, tau0, tau1, tau2):
+        ks0 = k.init_state(key0, {"x": x, "y": y, "tau": tau0})
+        out1 = k._standard_transition(key1, ks0, {"x": x, "y": y, "tau": tau1}, ep)
+        st2 = {"x": out1.model_state["x"], "y": y, "tau": tau2}
+        out2 = k._standard_transition(key2, out1.kernel_state, st2, ep)
+        ref2 = k._standard_transition(key2, iwls.IWLSKernelState(out1.kernel_state.step_size), st2, ep)
+        return dict(acc=out2.info.acceptance_prob, x=out2.model_state["x"], racc=ref2.info.acceptance_prob, rx=ref2.model_state["x"])
+    keys = [jax.random.PRNGKey(i) for i in (11, 12, 13)]
+    x, y = sym_array("su_x", (n,)), sym_array("su_y", (n,))
+    taus = [z3.Real(f"su_tau{i}") for i in range(3)]
+    dom = {f"su_tau{i}": (0.2, 1.5) for i in range(3)}
+    enc = chk.note_enc(Enc("IWLS[n=2] init_state, transition, transition after tau changed", g, (*keys, jnp.zeros(n) + 0.1, jnp.ones(n), 0.7, 1.0, 1.3),
+                           (root_key("k0"), root_key("k1"), root_key("k2"), x, y, *[sc(t) for t in taus]), chol="contract", key_roots={"k0": keys[0], "k1": keys[1], "k2": keys[2]}, domain=dom, memo={}))
+
+    def goal(V):
+        return [t > 0 for t in taus], z3.And(all_eq(V.out["acc"], V.out["racc"]), all_eq(V.out["x"], V.out["rx"]))
+
+    def replay(ob, model, rng):
+        worst = None
+        for t0, t1, t2 in ((0.7, 1.0, 1.3), (0.3, 0.3, 1.4), (1.2, 0.4, 0.4)):
+            out = g(*keys, jnp.asarray([0.1, -0.2]), jnp.asarray([1.0, 2.0]), t0, t1, t2)
+            d = max(abs(float(out["acc"]) - float(out["racc"])), float(jnp.max(jnp.abs(out["x"] - out["rx"]))))
+            if worst is None or d > worst[0]:
+                worst = (d, dict(tau_at_init=t0, tau_first_transition=t1, tau_second_transition=t2), dict(acceptance_prob=float(out["acc"]), with_fresh_kernel_state=float(out["racc"]),
+                                                                                                       x=np.asarray(out["x"]).tolist(), x_with_fresh_kernel_state=np.asarray(out["rx"]).tolist()))
+        return dict(reproduced=bool(worst[0] > 1e-5), inputs=worst[1], observed=worst[2], note="real kernel, real cholesky: second transition with the used kernel state vs a fresh one with the same step size")
+    ob = Obligation("IWLS[n=2]: a kernel state that was initialised and used at other model states carries nothing but tuning parameters -- the next transition equals the one with a fresh "
+                       "kernel state of the same step size (information re-evaluated at the current state)", [enc], goal, signature="IWLS:second-use", replay=replay, timeout_s=60)
+    ob.probe_on_unknown = True         # a refutation the solver cannot complete (non-linear) is tried on the real code; it can only report, never discharge
+    return [ob]
+
+
 def iwls_monolithic(chk):
     """cross-check that does not depend on how the kernel is organised internally: the whole IWLS transition for n = 2, no callee re-bound
     (only cholesky is a contract), against the closed-form Metropolis-Hastings ratio for the Gaussian proposal N(x + s^2/2 F^-1 g, s^2 F^-1)"""
@@ -586,6 +630,7 @@ def main():
         except AttributeError as ex:
             chk.harness_error(nm, f"modular IWLS glue not applicable to this tree (callee names changed?): {ex}")
     obs += iwls_monolithic(chk)
+    obs += chk.guarded("IWLS:second-use:trace", "tracing two consecutive IWLS transitions", iwls_second_use, chk) or []
     obs += rw_glue(chk)
     obs += mh_glue(chk)
     obs += mh_fp32(chk)
